@@ -21,9 +21,51 @@ CHECKS = {
    ref='DESIGN.md 5 (C15)'),
 }
 
+CHECKS.update({
+ 'C07': dict(
+   technique='CBMC contracts on NumberDataType::parseInput / checkValueRange (DFCC and harness-enforced per divisor) with strtol/strtoul/strtod as ghost-reading environment stubs',
+   level='proof',
+   text='parseInput proved, for every numeric type shape (width 1..32 bit, signed/unsigned, BCD/FIX, REQ) and every mathematical reading of the text (128-bit magnitude, sign, parse end, ERANGE), to accept exactly the well-formed in-range numbers and to encode them exactly; fixed-point paths proved per divisor of the property quantifier incl. NaN/inf/overflow; checkValueRange proved equal to the two\'s-complement / IEEE range predicate for all raw values.',
+   note=TB + 'strtol/strtoul/strtod are trusted stubs returning the clamp of a ghost reading (ISO C 7.22.1); exp2 of integral arguments exact. Not decided: value lists (ValueListDataField::writeSymbols) and DataField::create range parsing until unit fields is built; hex/blank/exponent syntax of the C library.',
+   ref='DESIGN.md 5 (C07)'),
+ 'C12': dict(
+   technique='CBMC contracts: frame (assigns) clauses of the codec functions and errno-independence postcondition of parseInput',
+   level='proof',
+   text='parseInput proved to return the same verdict whatever errno held on entry (completeness postcondition quantifies over errno) and to consult the C library at most once; codec functions under contract write only their out-parameters (assigns clauses checked by DFCC or whole-object frame assertions).',
+   note=TB + 'Not decided: stream-flag determinacy of readSymbols implementations, derived-type cache transparency, load-order independence of MessageMap (whole-loader property).',
+   ref='DESIGN.md 5 (C12)'),
+})
+
+CHECKS.update({
+ 'C05': dict(
+   technique='CBMC contracts on NumberDataType::readRawValue / checkValueRange against an independent type specification (DFCC; multi-byte BCD harness-enforced per flag word)',
+   level='proof',
+   text='readRawValue proved equal to the specified raw decoding (little/big endian, BCD/HCD digit validity, bit ranges, replacement) for every byte pattern, offset and every valid numeric type shape of 1..4 bytes; checkValueRange proved equal to the signed/unsigned/IEEE range predicate; calcPrecision proved.',
+   note=TB + 'Not decided in this revision: text rendering (readFromRawValue token stream, libstdc++ number formatting is trusted anyway), date/time/string types, value lists, KNX float.',
+   ref='DESIGN.md 5 (C05)'),
+ 'C06': dict(
+   technique='CBMC contracts on NumberDataType::writeRawValue (harness-enforced, whole-string frame) + round-trip lemma over the read/write specification functions',
+   level='proof',
+   text='writeRawValue proved to write exactly the specified bytes, OR-ing bit fields into an existing byte, leaving every other byte of the output unchanged; lemma: encode(decode(bytes)) reproduces the owned bits for every decodable pattern of every valid numeric type shape, null encodes to the canonical replacement pattern; parseInput (C07) gives the text leg for integers.',
+   note=TB + 'Harness-enforced (B2) runs check pre/post but not a DFCC assigns clause; the frame is asserted explicitly over the whole output string. Not decided: float text leg (print/parse identity of libstdc++/libc), date/time/string types.',
+   ref='DESIGN.md 5 (C06)'),
+ 'C10': dict(
+   technique='CBMC contracts: per-field locality of NumberDataType::readRawValue / writeRawValue (owned bytes and bit mask, whole-string frame)',
+   level='proof',
+   text='Field-level part of C10: a numeric field reads only its own bytes at (offset, length), writes only those bytes, a bit field only ORs its owned bits into an already existing byte; proved for all offsets and type shapes. The offset bookkeeping of DataFieldSet (three loops) is added when unit fields is built.',
+   note=TB + 'DataFieldSet::getLength/read/write loops not yet under contract in this revision.',
+   ref='DESIGN.md 5 (C10)'),
+ 'C20': dict(
+   technique='CBMC safety obligations (bounds, pointer, shift distance, signed overflow, division by zero, unwinding) on every extracted function under arbitrary-input preconditions',
+   level='proof',
+   text='Every function under contract is also checked for out-of-bounds access, invalid pointer use, undefined shift distance, signed overflow, division by zero and termination (loop variants / unwinding assertions) for arbitrary inputs within the stated preconditions.',
+   note=TB + 'Signed left-shift overflow checks are dropped (defined in C++14 and later). Functions not extracted (command handlers, CSV loaders, std:: containers) are not covered; leaks and uncaught exceptions are outside CBMC-in-C.',
+   ref='DESIGN.md 5 (C20)'),
+})
+
 NOT_APPLICABLE = {
 }
-NOT_YET = ['C01', 'C02', 'C03', 'C04', 'C05', 'C06', 'C07', 'C08', 'C09', 'C10', 'C12', 'C13', 'C14', 'C16', 'C17', 'C18', 'C19', 'C20']
+NOT_YET = ['C01', 'C02', 'C03', 'C04', 'C08', 'C09', 'C10', 'C13', 'C14', 'C16', 'C17', 'C18', 'C19', 'C20']
 
 
 def main():
